@@ -254,3 +254,9 @@ def run(ctx):
     from engine.fdvalid import fd_valid
     fd_valid(ctx, prog)
 
+    ctx.rule('OWN-OVERWRITE', 'an owned pointer field (released only at close) is never overwritten by a fresh allocation while it may hold one: every path to the store frees the old value, '
+             'assigns NULL, passes a guard that implies NULL, or starts at the entry of a function that runs once per handle; realloc-in-place exempt', floor=30)
+    from engine.overwrite import own_overwrite
+    from engine.effects import Effects as _Eff
+    own_overwrite(ctx, prog, own, _Eff(prog))
+
